@@ -4,7 +4,7 @@
 (* defined by the instruction-family modules, and the application of an    *)
 (* effect to the machine state.  See VmBase for the state and conventions. *)
 (***************************************************************************)
-EXTENDS VmBase, VmAlu, VmFlow, VmMem, VmCall, VmAssets, VmWide, VmContract, VmStorage
+EXTENDS VmBase, VmAlu, VmFlow, VmMem, VmCall, VmAssets, VmWide, VmContract, VmStorage, VmCrypto
 
 (***************************************************************************)
 (* Dispatch                                                                *)
@@ -22,6 +22,7 @@ EffectOf(vm, w) ==
          ELSE IF n \in WideNames THEN WideEff(vm, n, w)
          ELSE IF n \in ContractNames THEN ContractEff(vm, n, w)
          ELSE IF n \in StorageNames THEN StorageEff(vm, n, w)
+         ELSE IF n \in CryptoNames THEN CryptoEff(vm, n, w)
          ELSE Unmodelled
 
 \* ---- gas charge applied to the register file ----
@@ -35,6 +36,7 @@ WithRegs(vm, upd) == [r \in 0..63 |-> IF r \in DOMAIN upd THEN upd[r] ELSE vm.re
 UsesGasReg(w) == {RA(w), RB(w), RC(w), RD(w)} \cap {GGAS, CGAS} # {}
 Effs(vm, w) ==
     LET e0 == EffectOf(vm, w) IN
+    CrBhshAlt(vm, w) \cup
     IF e0.x /\ ValidWord(w) /\ UsesGasReg(w) /\ CanPay(vm, e0.gas) /\ e0.gas # "0"
     THEN {e0, [EffectOf([vm EXCEPT !.opv = Charged(vm, e0.gas)], w) EXCEPT !.gas = e0.gas]}
     ELSE {e0}
